@@ -119,7 +119,16 @@ impl Iterator for Query<'_> {
     type Item = Result<Numeric, Error>;
 
     fn next(&mut self) -> Option<Self::Item> {
-        let node = self.children.next()?;
+        // Tokens at the root (surrounding whitespace, the parentheses around a
+        // lone parenthesised expression) are not results of their own.
+        let node = loop {
+            let node = self.children.next()?;
+
+            if node.has_children() {
+                break node;
+            }
+        };
+
         Some(crate::eval::eval(self, node, Default::default()))
     }
 }
